@@ -138,7 +138,7 @@ theorem init_gs (c : Cfg) (hv : c.Valid) : GS c (init c) := by
   constructor
   · rw [hc.numYielded, hc.obs, e2, e3]; rfl
   · intro _; rw [hc.snap, e4]
-  · intro h0; rw [hc.snap, hc.numYielded, e3, e4]; exact ⟨Nat.dvd_zero _, Nat.le_refl _, by have := Nat.pos_of_ne_zero h0; omega⟩
+  · intro h0 _; rw [hc.snap, hc.numYielded, e3, e4]; exact ⟨Nat.dvd_zero _, Nat.le_refl _, by have := Nat.pos_of_ne_zero h0; omega⟩
 
 theorem run_gs_map (c : Cfg) (as : List Action) (s s' : State) (hv : c.Valid) (hm : c.iterable = false)
     (hio : c.inOrder = true) (hnr : NoReset as) (h : (InvM c s ∧ GS c s) ∨ died s) (hr : run c s as = some s') :
